@@ -87,7 +87,7 @@ def run_one(ctx, rng, cands, spec):
     projs = [c05.project(e, st['names'][e['ci']], st['dialect']) for e in st['entries']]
     hooks, f_text, f_ast = gen_script(rng, st, projs)
     lines = [e['line'] for e in st['entries']]
-    case = {'lines': lines, 'filter': f_text, 'hooks': {str(p): [c[0] for c in v] for p, v in hooks.items()}}
+    case = {'lines': lines, 'filter': f_text, 'hooks': {str(p): [c[0] for c in v] for p, v in hooks.items()}, 'expect': []}
     del Controller._verif_log[:]
     try:
         s = Session(filter_text=f_text)
@@ -146,6 +146,7 @@ def run_one(ctx, rng, cands, spec):
             app_ids[name] = streams.app_id_of(e['rec'])
         lo, hi = joinref.selected(state, projs[idx])
         in_sel = selection is None or selection == name
+        case['expect'].append([lo is True and in_sel, not (hi is False or not in_sel)])      # [must be shown, may be shown]
         shown = [o for o in outs_for.get(idx, []) if outline.parse_line(o)['kind'] == 'msg']
         ctx.ev()
         tool_says = snap.get(id(msgs[idx]), (None, None)) if idx < len(msgs) else (None, None)
@@ -363,6 +364,23 @@ def replay(ctx, case):
     env.setup()
     s = Session(filter_text=case.get('filter'))
     s.feed([l + '\n' for l in case['lines']], hooks={int(p): v for p, v in case['hooks'].items()})
+    # decide again from the stored per-line expectation [must be shown, may be shown]
+    if case.get('expect'):
+        cur = None
+        shown = {}
+        for k, p in s.events:
+            if k == 'read':
+                cur = p
+            elif k in ('eof', 'cmd'):
+                cur = None
+            elif k == 'out' and cur is not None and outline.parse_line(p)['kind'] == 'msg':
+                shown[cur] = shown.get(cur, 0) + 1
+        for i, (must, may) in enumerate(case['expect']):
+            ctx.ev()
+            n = shown.get(i, 0)
+            if n > 1 or (must and n == 0) or (not may and n):
+                ctx.violation('live-view', 'line %d %r shown %d times; stored expectation: must be shown=%r, may be shown=%r' % (i, case['lines'][i][:120], n, must, may), case)
+                break
     idx = case.get('line_index', 0)
     seen = False
     for k, p in s.events:
